@@ -154,7 +154,22 @@ impl MapViews {
         }
 
         // Torn files.
-        let cuts: Vec<usize> = match self.trunc { Trunc::None => vec![], Trunc::All => (0..total).collect(), Trunc::One(t) => if t < total { vec![t] } else { vec![] } };
+        // Every cut for files up to 600 elements; for larger files every cut within 3 elements of a structure
+        // boundary or of a page boundary, plus an even spread of 64.
+        let cuts: Vec<usize> = match self.trunc {
+            Trunc::None => vec![],
+            Trunc::All if total <= 600 => (0..total).collect(),
+            Trunc::All => {
+                let mut c: Vec<usize> = Vec::new();
+                for b in ledger.iter() { for d in 0..=3usize { if *b >= d { c.push(b - d); } c.push(b + d); } }
+                let mut pg = 512usize; while pg < total + 512 { for d in 0..=2usize { if pg >= d { c.push(pg - d); } c.push(pg + d); } pg += 512; }
+                for j in 0..64usize { c.push(j * total / 64); }
+                c.retain(|t| *t < total); c.sort_unstable(); c.dedup();
+                stats.probe("file larger than 600 elements: truncations sampled at structure and page boundaries");
+                c
+            },
+            Trunc::One(t) => if t < total { vec![t] } else { vec![] },
+        };
         for t in cuts {
             std::fs::write(path, &bytes[..8 * t]).map_err(|e| v("harness", "write", e.to_string()))?;
             stats.evaluations += 1;
